@@ -1,5 +1,5 @@
 // @unit c05_enum_strings property=C05 attach=typify-impl/src/convert.rs
-// @h c05_route_enum_string tier=both
+// @h c05_route_enum_string tier=both replay=none
 // @h c05_enum_string_filter tier=off bounded=enum-of-3-literal-strings
 // @canary canary_c05_enum_strings
 //
